@@ -231,7 +231,7 @@ def t4_eviction(ck):
                 found += 1
                 idx = e[1][2]
                 # only after the scan is exhausted: the path took the None edge of the iterator's next()
-                exhausted = any(c[0] == "discr" and c[1][0] == "call" and c[1][1].endswith("Iterator>::next") and taken == 0 for c, taken in p.conds)
+                exhausted = any(c[0] == "discr" and c[1][0] == "call" and c[1][1].endswith("::next") and "iterator::Iterator" in c[1][1] and taken == 0 for c, taken in p.conds)
                 ck.req(exhausted, "T4.after_scan", "insert_or_replace", ior.where(),
                        "the evicting write can happen before the scan over all slots is exhausted")
                 modlen = idx[0] == "bin" and idx[1] == "Rem" and idx[3][0] == "call" and idx[3][1].endswith("::len") and any(
